@@ -32,3 +32,11 @@ package zkelog
 //@   nopanic[C05]
 //@   inline
 //@   requires hash != nil && hash.h != nil && group != nil && public.E != nil && public.E.L != nil && public.E.M != nil && public.ElGamalPublic != nil && public.Base != nil && public.Y != nil && commitment != nil
+//@   use absorb
+//@   ensures[C10] result1 == nil ==> absorbed(hstate(hash), habs(iface(public.E)))
+//@   ensures[C10] result1 == nil ==> absorbed(hstate(hash), habs(iface(public.ElGamalPublic)))
+//@   ensures[C10] result1 == nil ==> absorbed(hstate(hash), habs(iface(public.Base)))
+//@   ensures[C10] result1 == nil ==> absorbed(hstate(hash), habs(iface(public.Y)))
+//@   ensures[C10] result1 == nil ==> absorbed(hstate(hash), habs(iface(commitment.A)))
+//@   ensures[C10] result1 == nil ==> absorbed(hstate(hash), habs(iface(commitment.N)))
+//@   ensures[C10] result1 == nil ==> absorbed(hstate(hash), habs(iface(commitment.B)))
